@@ -14,6 +14,14 @@ Theorem C49_documented_accepted : documented_accepted = true.
 Proof. vm_compute. reflexivity. Qed.
 Print Assumptions C49_documented_accepted.
 
+(* Every variable of the "Builtin Variables" table of mod_header.md is a key of mod_header.VariableHandlers, and each
+   documented SET / ADD command with the value "%name" (alone or as "id=%name; x") is a valid configuration - hence
+   accepted by the model's loader (C49_valid_header_accepted); the harness loads exactly these actions through
+   ActionFileCheck + actionConvert for every variable of the module's table. *)
+Theorem C49_documented_variables : documented_variables_valid = true.
+Proof. vm_compute. reflexivity. Qed.
+Print Assumptions C49_documented_variables.
+
 (* QUERY_DEL, for every raw query string and every key list: after the action no parameter whose decoded key
    (url.ParseQuery decoding: %XX, '+', keys without '=') is one of the deleted keys remains. *)
 Theorem C49_query_del_complete : forall (raw : bytes) (keys : list bytes) (k : bytes),
